@@ -315,7 +315,30 @@ class IfaceStream(Stream):
         attempt(wire)
         attempt(lambda: info["make"](d["args"]).solve(**kw))
         attempt(lambda: str(m))
-        attempt(lambda: (m.solve(**kw), m.print_S()))
+        def printed():
+            """print_S prints the matrix 'in agreement with pins': row p, column q of the table (pins in alphabetical
+            order) is func(S[p, q]) — checked for the real and the imaginary part and for the default |.|"""
+            sm = m.solve(**kw)
+            names = sorted(p.name for p in sm.pin_dic)
+            idx = {p.name: i for p, i in sm.pin_dic.items()}
+            S = np.asarray(sm.S)[0]
+            for func in (np.real, np.imag, None):
+                buf = io.StringIO()
+                with contextlib.redirect_stdout(buf):
+                    if func is None:
+                        sm.print_S()
+                    else:
+                        sm.print_S(func=func)
+                rows = [ln.split() for ln in buf.getvalue().splitlines() if ln.strip()]
+                table = [r for r in rows if len(r) == len(names) + 1 and r[0] in names]
+                assert [r[0] for r in table[-len(names):]] == names, "row labels of print_S"
+                for r in table[-len(names):]:
+                    for q, txt in zip(names, r[1:]):
+                        want = (np.abs if func is None else func)(S[idx[r[0]], idx[q]])
+                        assert abs(float(txt) - float(want)) < 6e-5, f"print_S entry ({r[0]}, {q})"
+            m.solve(**kw)
+            m.print_S()
+        attempt(printed)
         attempt(lambda: m.show_free_pins())
         attempt(lambda: m.inspect())
 
